@@ -203,6 +203,48 @@ def specAddItem (a : AState) (l : LH) (name : Option Name) (val : Option V) : AS
     else if a.hasItem l.cid n.key then (a, .error CIF_DUP_ITEMNAME)
     else (a.onLoop l.cid l.loopNum (fun y => { y with items := y.items ++ [(n.key, n.orig)], packets := y.packets.map (· ++ [val.getD .unk]) }), .ok ())
 
+/-- the values of item `k` in the loop's packets, in packet order -/
+def ALoop.column (x : ALoop) (k : Str) : List V :=
+  x.packets.map (fun p => p.getD (x.items.findIdx (fun it => it.1 == k)) .unk)
+
+/-- the column of item `k` of container `cid` (empty when the container has no such item) -/
+def AState.columnOf (a : AState) (cid : Nat) (k : Str) : List V :=
+  match a.loops.find? (fun y => y.cid == cid && y.hasItem k) with
+  | some x => x.column k
+  | none => []
+
+/-- cif_container_get_value: the item's value; with several packets the first, and CIF_AMBIGUOUS_ITEM; CIF_NOSUCH_ITEM when the
+    container has no such item or its loop has no packet -/
+def specGetValue (a : AState) (h : CH) (name : Option Name) : Except Code (V × Bool) :=
+  match name with
+  | none => .error CIF_NOSUCH_ITEM
+  | some n =>
+    if !n.valid then .error CIF_NOSUCH_ITEM
+    else match a.columnOf h.id n.key with
+      | [] => .error CIF_NOSUCH_ITEM
+      | [v] => .ok (v, false)
+      | v :: _ => .ok (v, true)
+
+/-- the loop of container `cid` that has item `k` -/
+def AState.itemLoop (a : AState) (cid : Nat) (k : Str) : Option ALoop := a.loops.find? (fun y => y.cid == cid && y.hasItem k)
+
+/-- the loop without item `k`: its name goes, and its value from every packet -/
+def ALoop.dropItem (x : ALoop) (k : Str) : ALoop :=
+  { x with items := x.items.filter (fun it => !(it.1 == k)),
+           packets := x.packets.map (fun p => ((x.items.zip p).filter (fun e => !(e.1.1 == k))).map (·.2)) }
+
+/-- cif_container_remove_item: the item goes from its loop, with its values; the loop goes with its last item -/
+def specRemoveItem (a : AState) (h : CH) (name : Option Name) : AState × Except Code Unit :=
+  match name with
+  | none => (a, .error CIF_INVALID_ITEMNAME)
+  | some n =>
+    if !n.valid then (a, .error CIF_NOSUCH_ITEM)
+    else match a.itemLoop h.id n.key with
+      | none => (a, .error CIF_NOSUCH_ITEM)
+      | some x =>
+        if x.items.length == 1 then ({ a with loops := a.loops.filter (fun y => !(y.cid == x.cid && y.num == x.num)) }, .ok ())
+        else (a.onLoop x.cid x.num (fun y => y.dropItem n.key), .ok ())
+
 -- ---- histories on the documented model -----------------------------------------------------------------------------------------------
 
 /-- the world of a history, every managed CIF as the documented model; the handle tables are the caller's (a handle names an object),
@@ -242,7 +284,7 @@ end AWorld
 /-- the ops `specStep` covers so far -/
 def Op.covered : Op → Bool
   | .addPkt .. | .setCat .. | .ldestroy .. => true
-  | .names .. | .catLoop .. | .itemLoop .. | .prune .. | .mkBlock .. | .mkFrame .. | .mkLoop .. | .addItem .. => true
+  | .names .. | .catLoop .. | .itemLoop .. | .prune .. | .mkBlock .. | .mkFrame .. | .mkLoop .. | .addItem .. | .getVal .. | .rmItem .. => true
   | .cifNew | .cifDel .. | .getBlock .. | .blocks .. | .getFrame .. | .frames .. | .code .. | .isBlock .. | .getCat .. | .cdestroy .. => true
   | _ => false
 
@@ -376,6 +418,22 @@ def specStep (a : AWorld) : Op → Option (AWorld × Result)
       | some _ =>
         let (st1, r) := specAddItem st e.h n v
         some (a.setCif e.cif st1, { rc := some (codeOf r) })
+  | .getVal h n =>
+    match a.liveH h with
+    | none => some (a, skipped)
+    | some (e, st) =>
+      match n with
+      | none => some (a, skipped)
+      | some _ =>
+        match specGetValue st e.h n with
+        | .ok (v, amb) => some (a.setCif e.cif st, { rc := some (if amb then CIF_AMBIGUOUS_ITEM else CIF_OK), out := .value v })
+        | .error c => some (a.setCif e.cif st, { rc := some c })
+  | .rmItem h n =>
+    match a.liveH h with
+    | none => some (a, skipped)
+    | some (e, st) =>
+      let (st1, r) := specRemoveItem st e.h n
+      some (a.setCif e.cif st1, { rc := some (codeOf r) })
   | _ => none
 
 /-- a whole history on the documented model (`none` as soon as an op is not covered) -/
